@@ -194,8 +194,12 @@ ReqAllowed(S, q, ph, ob) ==
     /\ ob.ac => AuthMayRun(S, q)
     /\ ob.sc => ob.ac /\ S.amode = "ok"
 
-\* C06, API part: a panicking endpoint function is answered with 500 and the server keeps serving
-PanicAllowed(ev) == ev.st = 500 /\ ev.err = "" /\ ev.probe = 200 /\ ev.probeinv
+\* C06, API part: a panicking endpoint function is answered with 500 (unless it had already written its status
+\* line), the panic is reported on the module error channel, and the server keeps serving
+LateKinds == {"handlerlate", "wraplate"}
+PanicAllowed(ev) == /\ ev.err = "" /\ ev.probe = 200 /\ ev.probeinv
+                    /\ ev.reported
+                    /\ (ev.kind \notin LateKinds) => ev.st = 500
 
 \* ------------------------------------------------------------------------------------ laws of the model
 \* (checked by TLC over the whole table in ApiAuthGen; they restate the property independently of the
